@@ -1,1 +1,9 @@
-fn main() {}
+fn main() {
+    let args: Vec<String> = std::env::args().collect();
+    if args.get(1).map(|s| s.as_str()) == Some("smoke") {
+        let _out = if std::env::var("GMXSIM_LOG").is_ok() { None } else { Some(chainsim::rt::silence_stdout()) };
+        simcore::panic_loc::install();
+        chainsim::smoke::run();
+        return;
+    }
+}
